@@ -210,7 +210,7 @@ def run(tier):
                 results.append(obj)
             if hdr is None or hdr.get('infra'):
                 raise vlib.Infra('c06 driver reports: %s' % (hdr,))
-            if hdr['results'] != hdr['cases']:
+            if hdr['results'] + hdr.get('skipped_after_crashes', 0) != hdr['cases']:
                 raise vlib.Infra('c06 driver processed %d of %d cases' % (hdr['results'], hdr['cases']))
         # ---- verdicts
         infra = [r for r in results if r.get('infra')]
@@ -254,8 +254,9 @@ def run(tier):
             r = unfaithful[0]
             raise vlib.Infra('the real code satisfies the statement but deviates from the mechanism of Spans.tla in %d cases, e.g. %s: %s'
                              % (len(unfaithful), r['id'], json.dumps(r['mech_diffs'], ensure_ascii=False)[:1500]))
+        crashed = any(r.get('crash') for r in results)
         missing = [t for t in REQUIRED_TRAITS if not traits.get(t)]
-        if missing:
+        if missing and not crashed:
             raise vlib.Infra('vacuous coverage: no case with traits %s' % missing)
         covered = set()
         for mc in mcs:
